@@ -50,12 +50,17 @@ outer:
 				isGlob = true
 			}
 			break outer
+		case '\\':
+			// An escape sequence ends the literal prefix. The bytes before it
+			// are still a valid range prefix.
+			break outer
 		}
 		n++
 	}
 	if n == 0 {
-		g.Limits = []string{pattern, pattern}
-		g.IsGlob = false
+		// The pattern starts with a wildcard, class or escape. There is no
+		// literal prefix to derive a range from, so scan everything.
+		g.IsGlob = isGlob
 		return g
 	}
 	var a, b string
